@@ -209,6 +209,67 @@ class EngineCheck(PropertyCheck):
                                             "kind": "schedule-dependent", "input": {"ops": c.harness_lines(), "ops_alt": c2.harness_lines()}})
         res.distribution.setdefault("engine", {})["cross_schedule_pairs"] = n
 
+    def run_restart_split(self, ctx, res, n):
+        """C03 (engine level): every history is executed once in a single engine and once with an
+        engine restart (new engine, same database) inserted at every build boundary; whenever a build
+        succeeds in both, the two return the same value, and as long as no build has failed or been
+        cancelled in either variant they execute the same tasks."""
+        import copy
+        rng = C.Rng(ctx.seed, self.prop + "/restart-split")
+        single, split = [], []
+        for i in range(n):
+            nk = 4 + rng.below(9 if not ctx.thorough else 14)
+            rules = E.gen_program(rng, nk, cyclic=rng.chance(1, 4))
+            ops = E.gen_history(rng, rules, 3 + rng.below(8 if not ctx.thorough else 14), cancel=rng.chance(1, 3),
+                                allow_restart=False)
+            single.append(E.Case(rules, ops))
+            ops2 = []
+            for o in ops:
+                if o["op"] == "B":
+                    ops2.append({"op": "E"})
+                ops2.append(copy.deepcopy(o))
+            split.append(E.Case(rules, ops2))
+        exe = ctx.exe[("vengine", "plain")]
+        h1, pr1 = E.run_harness(exe, single)
+        h2, pr2 = E.run_harness(exe, split)
+        for pr, cs in ((pr1, single), (pr2, split)):
+            for x in pr:
+                res.oracle_failures.append({"what": "the engine stalled or crashed while running a history (harness exit %s)" % x["rc"],
+                                            "kind": "stall" if x["rc"] in (3, -9) else "crash", "input": {"ops": cs[x["case"]].harness_lines()}})
+
+        def builds(hs):
+            out = []
+            for l in hs:
+                if l.startswith("B "):
+                    ev = E.parse_trace(l)
+                    r = next((e[1] for e in ev if e[0] == "R"), None)
+                    failed = any(e[0] in ("X", "CY", "ER") for e in ev)
+                    out.append((r, failed, sorted(int(e[1]) for e in ev if e[0] == "T")))
+            return out
+        compared = same_exec = 0
+        for c1, c2, a, b in zip(single, split, h1, h2):
+            if a is None or b is None:
+                continue
+            clean = True
+            for i, (x, y) in enumerate(zip(builds(a), builds(b))):
+                if x[1] or y[1]:
+                    clean = False
+                    continue
+                compared += 1
+                if x[0] != y[0]:
+                    res.oracle_failures.append({
+                        "what": "build %d of a history returns %s in a single engine and %s when the engine is restarted at every build boundary" % (i, x[0], y[0]),
+                        "kind": "restart-changes-result", "input": {"ops": c1.harness_lines(), "ops_split": c2.harness_lines()}})
+                elif clean:
+                    same_exec += 1
+                    if x[2] != y[2]:
+                        res.oracle_failures.append({
+                            "what": "build %d of a history executes %s in a single engine and %s when the engine is restarted at every build boundary" % (i, x[2], y[2]),
+                            "kind": "restart-changes-executions", "input": {"ops": c1.harness_lines(), "ops_split": c2.harness_lines()}})
+        res.evaluations += compared
+        res.distinct_nontrivial += same_exec
+        res.distribution["restart_split"] = {"histories": n, "builds_compared": compared, "builds_with_executions_compared": same_exec}
+
     def correspond(self, ctx, res):
         corp = self.corpus_cases()
         if corp:
